@@ -24,3 +24,98 @@ package waddrmgr
 //@   replay waddrmgr_fault.go
 //@ func putChainedAddress(ns, scope, addressID, account, status, branch, index, addrType) (err)
 //@   replay waddrmgr_fault.go
+
+// ---- C15 / C08: sync state (height -> block hash, synced-to stamp) ----
+//@ macro B_SYNC(ns) = sub(bid(ns), bytes(syncBucketName))
+//@ spec func u32of(h Int) Int = h < 0 ? h + 4294967296 : h
+//@ spec func khArr(h Int) [Int]Int
+//@ axiom khArr_def: forall h Int, i Int :: {select(khArr(h), i)} select(khArr(h), i) == ((0 <= i && i < 4) ? be32byte(u32of(h), i) : 0)
+//@ axiom khArr_bytes: forall h Int :: {khArr(h)} select(khArr(h), 0) == be32byte(u32of(h), 0) && select(khArr(h), 1) == be32byte(u32of(h), 1)
+//@     && select(khArr(h), 2) == be32byte(u32of(h), 2) && select(khArr(h), 3) == be32byte(u32of(h), 3)
+// key of the hash remembered for a height: the height as 4 big-endian bytes
+//@ spec func K_h(h Int) Bytes = mkbytes(4, khArr(h))
+// K_h is injective on int32 heights: khHeight decodes it back
+//@ spec func khHeight(k Bytes) Int = be32(bat(k, 0), bat(k, 1), bat(k, 2), bat(k, 3))
+//@ lemma K_h_inverse@C15: forall h Int :: {khArr(h)} 0 - 2147483648 <= h && h <= 2147483647 ==> khHeight(K_h(h)) == u32of(h)
+//@ lemma K_h_len@C15: forall h Int :: {K_h(h)} blen(K_h(h)) == 4
+//@ macro HAS_HASH(ns, h) = HAS(B_SYNC(ns), K_h(h))
+//@ macro HASH_AT(ns, h) = VAL(B_SYNC(ns), K_h(h))
+//@ macro SYNCWF(ns) = (ns != nil && select(DBlive, B_SYNC(ns)))
+//@ macro DB_SAME() = (DBhas == old(DBhas) && DBval == old(DBval) && DBlive == old(DBlive))
+
+//@ func fetchBlockHash(ns, height) (hash, err)
+//@   property C15
+//@   requires wf: SYNCWF(ns)
+//@   ensures found: err == nil ==> hash != nil && HAS_HASH(ns, height) && bytes(deref(hash)) == HASH_AT(ns, height)
+//@   ensures missing: !HAS_HASH(ns, height) ==> err != nil
+//@   ensures db_unchanged: DB_SAME()
+
+//@ func addBlockHash(ns, height, hash) (err)
+//@   property C15
+//@   requires wf: SYNCWF(ns)
+//@   ensures stored: err == nil ==> HAS_HASH(ns, height) && HASH_AT(ns, height) == bytes(hash)
+//@   ensures others_kept: err == nil ==> DBlive == old(DBlive) && (forall k Bytes :: {select(select(DBhas, B_SYNC(ns)), k)} k != K_h(height) ==>
+//@       HAS(B_SYNC(ns), k) == old(HAS(B_SYNC(ns), k)) && VAL(B_SYNC(ns), k) == old(VAL(B_SYNC(ns), k)))
+//@   ensures failure: err != nil ==> DB_SAME()
+
+//@ func deleteBlockHash(ns, height) (err)
+//@   property C15
+//@   requires wf: SYNCWF(ns)
+//@   ensures deleted: err == nil ==> !HAS_HASH(ns, height)
+//@   ensures others_kept: err == nil ==> DBlive == old(DBlive) && DBval == old(DBval) && (forall k Bytes :: {select(select(DBhas, B_SYNC(ns)), k)} k != K_h(height) ==>
+//@       HAS(B_SYNC(ns), k) == old(HAS(B_SYNC(ns), k)))
+//@   ensures failure: err != nil ==> DB_SAME()
+
+// updateSyncedTo rewrites only the "syncedto" record
+//@ func updateSyncedTo(ns, bs) (err)
+//@   property C15
+//@   requires wf: SYNCWF(ns) && bs != nil
+//@   ensures others_kept: err == nil ==> DBlive == old(DBlive) && (forall k Bytes :: {select(select(DBhas, B_SYNC(ns)), k)} k != bytes(syncedToName) ==>
+//@       HAS(B_SYNC(ns), k) == old(HAS(B_SYNC(ns), k)) && VAL(B_SYNC(ns), k) == old(VAL(B_SYNC(ns), k)))
+//@   ensures written: err == nil ==> HAS(B_SYNC(ns), bytes(syncedToName)) && blen(VAL(B_SYNC(ns), bytes(syncedToName))) == 40
+
+//@ func staleHeight(height) (r)
+//@   property C15
+//@   ensures def: height >= 0 ==> r == height - 10000
+
+// PutSyncedTo: refuses a block whose predecessor hash is unknown (once the
+// birthday block is set), otherwise remembers hash(height) = bs.Hash, prunes
+// exactly the height MaxReorgDepth below, and leaves every other remembered
+// height as it was.
+//@ func PutSyncedTo(ns, bs) (err)
+//@   property C15
+//@   requires wf: SYNCWF(ns) && bs != nil && bs.Height >= 0
+//@   ensures stored: err == nil ==> HAS_HASH(ns, bs.Height) && HASH_AT(ns, bs.Height) == old(bytes(bs.Hash))
+//@   ensures window_kept: err == nil ==> (forall h Int :: {K_h(h)} 0 - 2147483648 <= h && h <= 2147483647 && h != bs.Height && h != bs.Height - 10000 ==>
+//@       HAS_HASH(ns, h) == old(HAS_HASH(ns, h)) && (HAS_HASH(ns, h) ==> HASH_AT(ns, h) == old(HASH_AT(ns, h))))
+//@   ensures stamp_untouched: bs.Height == old(bs.Height) && bytes(bs.Hash) == old(bytes(bs.Hash))
+
+// SetSyncedTo: memory mirrors exactly what was written, and only on success.
+//@ func (*Manager).SetSyncedTo(m, ns, bs) (err)
+//@   property C15 C08
+//@   requires wf: m != nil && SYNCWF(ns) && bs != nil && bs.Height >= 0
+//@   ensures mirror: err == nil ==> m.syncState.syncedTo.Height == old(bs.Height) && bytes(m.syncState.syncedTo.Hash) == old(bytes(bs.Hash))
+//@   ensures stored: err == nil ==> HAS_HASH(ns, old(bs.Height)) && HASH_AT(ns, old(bs.Height)) == old(bytes(bs.Hash))
+//@   ensures window_kept: err == nil ==> (forall h Int :: {K_h(h)} 0 - 2147483648 <= h && h <= 2147483647 && h != old(bs.Height) && h != old(bs.Height) - 10000 ==>
+//@       HAS_HASH(ns, h) == old(HAS_HASH(ns, h)) && (HAS_HASH(ns, h) ==> HASH_AT(ns, h) == old(HASH_AT(ns, h))))
+//@   ensures failure_keeps_memory: err != nil ==> m.syncState.syncedTo.Height == old(m.syncState.syncedTo.Height) && bytes(m.syncState.syncedTo.Hash) == old(bytes(m.syncState.syncedTo.Hash))
+
+//@ func (*Manager).SyncedTo(m) (r)
+//@   property C15 C08
+//@   requires wf: m != nil
+//@   ensures reads_memory: r.Height == m.syncState.syncedTo.Height && bytes(r.Hash) == bytes(m.syncState.syncedTo.Hash)
+//@   ensures pure_db: DB_SAME()
+
+//@ func (*Manager).BlockHash(m, ns, height) (hash, err)
+//@   property C15
+//@   requires wf: SYNCWF(ns)
+//@   ensures found: err == nil ==> hash != nil && HAS_HASH(ns, height) && bytes(deref(hash)) == HASH_AT(ns, height)
+//@   ensures missing: !HAS_HASH(ns, height) ==> err != nil
+//@   ensures db_unchanged: DB_SAME()
+
+//@ func FetchBirthdayBlock(ns) (block, err)
+//@   property C15
+//@   requires wf: SYNCWF(ns)
+//@   ensures db_unchanged: DB_SAME()
+//@   ensures set_iff: HAS(B_SYNC(ns), bytes(birthdayBlockName)) && blen(VAL(B_SYNC(ns), bytes(birthdayBlockName))) == 44 ==> err == nil
+//@   ensures unset: !HAS(B_SYNC(ns), bytes(birthdayBlockName)) ==> err != nil
